@@ -422,3 +422,7 @@ mod tests {
             .is_some());
     }
 }
+
+#[cfg(any(kani, verif_replay))]
+#[path = "/verif/kani/resumption.rs"]
+pub(crate) mod verif_kani_resumption;
